@@ -56,23 +56,67 @@ def _retarget(t, boff):
     return t
 
 
+MAX_SHARED_HELPER_BLOCKS = 150
+MAX_SHARED_HELPER_SITES = 12
+
+
 def is_new_helper(prog, g, known):
-    """A function the rules have never seen (not in `known`), private, not a closure or trait method, with exactly one
-    call site, in a caller of its own crate: the product of an "extract method" refactoring."""
+    """A function the rules have never seen (not in `known`), private, not a closure or trait method, called only from
+    its own crate: the product of an "extract method" refactoring.  With one call site any size is accepted; a helper
+    shared by several call sites ("extract the duplicated lookup into `required_i64(obj, key)`") must be small and not be
+    passed around as a function item (its closures become children of every caller that absorbed it)."""
     if g.short in known or g.pub or g.parent or g.kind == 'closure' or g.trait:
         return False
     if '::tests::' in g.p or len(g.blocks) > 600:
         return False
     sites = prog.callers(g.short)
-    if len(sites) != 1:
+    if not sites or len(sites) > MAX_SHARED_HELPER_SITES:
         return False
-    cf = sites[0][0]
-    return cf.crate == g.crate and prog.root_fn(cf).p != g.p
+    if any(cf.crate != g.crate or prog.root_fn(cf).p == g.p for cf, _, _ in sites):
+        return False
+    if len(sites) > 1:
+        if len(g.blocks) > MAX_SHARED_HELPER_BLOCKS:
+            return False
+        if g.p in _fn_items(prog):
+            return False
+    return True
+
+
+def _fn_items(prog):
+    """Paths of repository functions that occur as function items in generic arguments (passed as values)."""
+    c = getattr(prog, '_fn_items_cache', None)
+    if c is None:
+        import re
+        c = set()
+        for f in prog.fns.values():
+            for _, t in f.calls():
+                for ta in t['f'].get('targs') or []:
+                    c.update(re.findall(r'\{([A-Za-z0-9_:<> ]+)\}', ta))
+        prog._fn_items_cache = c
+    return c
+
+
+def drop_cyclic(prog, helpers):
+    """Helpers that can reach themselves through other helpers are left alone (they stay ordinary calls)."""
+    adj = {p_: {callee(t) for _, t in f.calls() if callee(t) in helpers} for p_, f in helpers.items()}
+    bad = set()
+    for start in adj:
+        seen, work = set(), list(adj[start])
+        while work:
+            x = work.pop()
+            if x == start:
+                bad.add(start)
+                break
+            if x in seen:
+                continue
+            seen.add(x)
+            work.extend(adj.get(x, ()))
+    return {p_: f for p_, f in helpers.items() if p_ not in bad}
 
 
 def eligible(prog, caller, t, helpers, stack):
     cp = callee(t)
-    if cp not in helpers or cp in stack or cp == caller.p:
+    if cp not in helpers or cp == caller.p:
         return None
     return helpers[cp]
 
@@ -81,7 +125,7 @@ def inlined(prog, fn, helpers, depth=4):
     raw = copy.deepcopy(fn.raw)
     body = raw['body']
     changed = False
-    stack = {fn.p}
+    stack = {fn.p}          # absorbed helpers (for inlined_from); cycles among helpers are excluded beforehand
     ret_locals = set()
     for _round in range(depth):
         did = False
